@@ -296,8 +296,11 @@ static void *dec_main(void *arg) {
     return NULL;
 }
 
+static unsigned g_alarm_period = 300;
 static void on_alarm(int s) {
     (void)s;
+    if (vrt_alarm_should_wait(g_alarm_period, 6))
+        return; /* slow or starved, not stuck: keep waiting (bounded) */
     if (g_out) {
         fprintf(g_out, "{\"ev\":\"Timeout\"}\n");
         fflush(g_out);
@@ -352,6 +355,7 @@ int main(int argc, char **argv) {
     signal(SIGABRT, on_crash);
     signal(SIGBUS, on_crash);
     signal(SIGFPE, on_crash);
+    g_alarm_period = (unsigned)timeout_s;
     alarm((unsigned)timeout_s);
     if (g_use_barrier) {
         int nenc = 0;
